@@ -6,7 +6,10 @@ from ..propsbase import *
 
 ASSUMPTIONS = ["the oracle evaluates the wire expression of every register holding a secret (also inside lists, tuples, arrays) "
                "on the backend's recorded lists and compares with the reported value modulo p, after every executed case, "
-               "including cases that raise later and cases in ignore-errors mode / under false guards"]
+               "including cases that raise later and cases in ignore-errors mode / under false guards",
+               "the public LinComb.from_bits is called on lists whose elements are secrets with values outside {0,1}: carry-save digits "
+               "xi+yi, signed digits, limbs 0..7, small negative integers, mixed with proper bits (gen/progs.py from_bits_digits_case); "
+               "the model's fromBits takes arbitrary linear combinations, so these cases are model-backed"]
 PARTIAL = []
 LEVELS = "VSW"
 
@@ -20,6 +23,9 @@ def explore(ctx, extended=False, focus=None):
     mix = [(5, progs.op_case), (1, progs.unop_case), (2, progs.method_case), (1, progs.ite_case), (2, progs.chain_case),
            (3, progs.guarded_case), (1, progs.array_case), (4, lambda rnd, cid, p: progs.op_case(rnd, cid, "ignore", p=p))]
     mix.append((3, progs.edge_case))
+    # from_bits on lists whose elements are secrets with values outside {0,1} (carry-save / signed digits, limbs); comparisons on the
+    # width boundary of check_positive under true guards
+    mix.append((2, progs.from_bits_digits_case)); mix.append((1, progs.wide_compare_guarded_case))
     for r in execute_backends(ctx.rnd, n, "c04x" if extended else "c04_", mix, corpus_cases("C04")):
         account(ex, r)
         ex.count(f"backend:{r.case.meta.get('backend')}")
